@@ -224,10 +224,94 @@ pub fn one_run(cfg: &Cfg, rc: &RunCfg, acc: &mut Acc) -> (Option<J>, u64, bool, 
     (v, rep.sched_hash, false, suspended_reached)
 }
 
+/// Scenario `single-thread executor`: ONE thread plays a current-thread executor with two tasks -- a `send_with_async` whose setter is suspended, and the consumer of the
+/// (only) stream. While the setter is suspended the same thread fills the buffer with plain sends; then the setter is resumed and the tasks are polled in turn. Every
+/// single poll must return in a bounded number of its own steps (nobody else exists who could make room: a send that waits for room has to answer Pending, not wait
+/// inside `poll`), and in the end everything accepted -- the resumed send's event included -- must have been delivered.
+pub fn one_run_single(kind: Kind, n: usize, m: usize, fill_all: bool, rc: &RunCfg, acc: &mut Acc) -> (Option<J>, u64, bool, bool) {
+    let ch = chan::make(kind, n, m, false).expect("instantiation");
+    let out: Arc<Mutex<(Vec<u64>, Vec<u64>, Vec<String>, bool, bool)>> = Arc::new(Mutex::new((Vec::new(), Vec::new(), Vec::new(), false, false)));   // accepted, yielded, problems, suspended, gate opened
+    let (ch2, out2) = (ch.clone(), out.clone());
+    let body: Body = Box::new(move || {
+        let ch = ch2; let out = out2;
+        let mut s = ch.create_stream();
+        let w = chan::noop_waker();
+        let gate = Gate::new(false);
+        let id_a = 0x1000u64;
+        let mut f = ch.send_with_async(id_a, gate.clone());
+        let mut a_res: Option<SendRes> = None;
+        match f.poll_once(&w) { Poll::Ready(r) => a_res = Some(r), Poll::Pending => { out.lock().unwrap().3 = true } }
+        sched::op_done();
+        // the same thread goes on sending while its async send is suspended: until the buffer is full (kinds that answer 'full') or nearly so
+        let budget = if fill_all && !kind.never_rejects() { n + 1 } else { n.saturating_sub(2) };
+        for i in 0..budget as u64 {
+            let id = 0x100 + i;
+            match send_via(&*ch, if i % 2 == 0 { Entry::Send } else { Entry::SendWith }, id) { SendRes::Ok => out.lock().unwrap().0.push(id), SendRes::Full => { sched::op_done(); break } }
+            sched::op_done();
+        }
+        out.lock().unwrap().4 = true;
+        gate.open();
+        let mut empties = 0;
+        for _round in 0..(4 * n + 40) {
+            if a_res.is_none() { if let Poll::Ready(r) = f.poll_once(&w) { a_res = Some(r); if r == SendRes::Ok { out.lock().unwrap().0.push(id_a) } } sched::op_done() }
+            match s.poll(&w) {
+                Poll::Ready(Some(it)) => { if !it.valid { out.lock().unwrap().2.push(format!("corrupted payload (id field {:#x})", it.id)) } out.lock().unwrap().1.push(it.id); drop(it); empties = 0 }
+                Poll::Ready(None) => { out.lock().unwrap().2.push("the stream ended by itself".into()); break }
+                Poll::Pending => { empties += 1; if a_res.is_some() && empties >= 2 { break } }
+            }
+            sched::op_done();
+        }
+        if a_res.is_none() { out.lock().unwrap().2.push("the resumed send_with_async never completed although its task was polled again and again and the consumer drained the channel".into()) }
+        drop(s);
+    });
+    let rep = sched::run(rc, vec![body]);
+    acc.account(&rep);
+    if rep.inconclusive() { std::mem::forget(ch); return (None, rep.sched_hash, true, false) }
+    let o = out.lock().unwrap();
+    let mut problems = o.2.clone();
+    for (t, p) in &rep.panics { problems.push(format!("thread t{t} panicked: {p}")) }
+    let cfgj = J::obj().with("kind", J::s(kind.name())).with("N", J::i(n as i64)).with("M", J::i(m as i64)).with("scenario", J::s("single-thread executor: suspended send_with_async + same-thread sends that fill the buffer + the consumer, all polled by one thread"));
+    let mut v: Option<J> = None;
+    if let Outcome::Stall { spinners, .. } = &rep.outcome {
+        let site = spinners.first().map(|(_, s)| sched::site_name(*s)).unwrap_or_default();
+        let sig = J::obj().with("anomaly", J::s("blocked_while_async_send_suspended")).with("kind", J::s(kind.name())).with("blocked_at", J::s(&site)).with("library_spin_sites", J::s(if site.starts_with("H_") { String::new() } else { site.clone() }))
+            .with("suspended_threads", J::i(0)).with("gate_was_open", J::Bool(o.4)).with("scenario", J::s("single_thread_executor"));
+        v = Some(J::obj().with("what", J::s(format!("single-thread executor: one poll / send on the thread that also runs the consumer did not return within {} of its own steps (last site {site}); {} -- nobody else exists who could make room, the operation has to return",
+            rc.max_steps, if o.4 { "the setter had been resumed" } else { "the setter was still suspended" }))).with("sigs", J::Arr(vec![sig])));
+        std::mem::forget(ch.clone());
+    } else {
+        for a in &o.0 { if !o.1.contains(a) { problems.push(format!("accepted event {a} was never delivered")) } }
+        let mut d = o.1.clone(); d.sort(); d.dedup(); if d.len() != o.1.len() { problems.push("an event was delivered twice".into()) }
+        for y in &o.1 { if !o.0.contains(y) { problems.push(format!("event {y} was delivered but no send reported it as accepted")) } }
+    }
+    if v.is_none() && !problems.is_empty() { problems.truncate(6); v = Some(J::obj().with("what", J::s(problems.join("; "))).with("sigs", J::Arr(vec![J::obj().with("anomaly", J::s("delivery")).with("kind", J::s(kind.name())).with("scenario", J::s("single_thread_executor"))]))) }
+    if let Some(v) = v.as_mut() { v.set("config", cfgj); v.set("strategy", J::s(rc.strategy.describe())); v.set("outcome", rep.outcome_json()); }
+    (v, rep.sched_hash, false, o.3)
+}
+
 pub fn run(args: &Args, acc: &mut Acc) { run_loop(args, acc, single) }
 
 fn single(args: &Args, acc: &mut Acc, seed: u64, verbose: bool) {
     let mut rng = Rng::new(seed);
+    // 1 run in 8: the single-thread executor scenario (kinds whose suspended send does not hold the queue: not the two of C20-D9)
+    if rng.chance(1, 8) {
+        let kinds: Vec<Kind> = chan::ALL_KINDS.iter().copied().filter(|k| k.has_async_send() && !matches!(k, Kind::UniMoveAtomic | Kind::UniMoveFullSync) && args.only.as_deref().map(|o| k.name() == o).unwrap_or(true)).collect();
+        if !kinds.is_empty() {
+            let kind = *rng.pick(&kinds);
+            let cfgs: Vec<(usize, usize)> = chan::cfgs_for(kind, false).into_iter().filter(|c| c.0 >= 4 && c.0 <= 16 && c.1 <= 2).collect();
+            let (n, m) = *rng.pick(&cfgs);
+            let fill_all = rng.chance(3, 4);
+            let mut rc = RunCfg::ser(seed, crate::sched::Strategy::Random { p_pct: 0 });
+            rc.max_steps = 20_000; rc.lone_thread_step_cap_is_stall = true;
+            rc.trace = verbose && args.get("trace").is_some();
+            let (violation, hash, inconclusive, suspended) = one_run_single(kind, n, m, fill_all, &rc, acc);
+            acc.count(&format!("single_thread_executor_runs[{}]", kind.name()), 1);
+            if inconclusive { return }
+            if suspended { acc.count("runs_with_a_setter_really_suspended", 1); acc.nontrivial(mix(hash ^ seed, kind as u64 * 131 + n as u64 * 17 + fill_all as u64 + 0x51)) }
+            if let Some(v) = violation { file_violation(args, acc, seed, verbose, v) }
+            return
+        }
+    }
     let cfg = draw_cfg(&mut rng, args.only.as_deref());
     let nthreads = cfg.streams + cfg.suspended + cfg.others.len() + cfg.len_thread as usize;
     let mut rc = RunCfg::ser(seed, draw_strategy(&mut rng, nthreads, PAUSE_SITES, 200));
